@@ -38,6 +38,45 @@ add('C13', 'exploration', 'history + reference model checked after every operati
     'exhaustive in operation order per point set, sampled over point sets; GaussianMixture behaviour as installed',
     'DESIGN.md#C13')
 
+add('C01', 'exploration', 'invariant hook on the live Sampler (real contains() of the real bounds) at every bound insertion, batch, checkpoint write, run() return and resume',
+    'The partition invariant (inside the cube, inside its own bound, outside every later bound, shell_association '
+    'agrees; live transfer candidates inside the newest bound with the recorded provenance) is evaluated on the real '
+    'state at every point where the property says the sampler can be observed, across generated hostile workloads '
+    '(non-nested funnel, ring, mixtures, plateaus, periodic, n_batch=1, pools) and histories with slices, resumes and '
+    'injected likelihood faults. Held = no observed state violated it.',
+    'membership decided by the real contains(); reach limited to generated configurations/histories', 'DESIGN.md#C01')
+
+add('C02', 'exploration', 'reference-estimator monitor compared with the accessors at every batch boundary; proposal counts observed at the bound.sample() boundary',
+    'A reference estimator recomputes per-shell counts, volumes, mean likelihoods, Kish sizes, log_z, n_eff, eta and '
+    'posterior weights from the stored arrays at every add_bound/add_samples/write/run-return/toggle/resume and '
+    'compares at rel. 1e-10; the number of proposals the bound handed out is observed independently of the counters.',
+    'bounds[i].log_v taken from the real bound (C08 calibrates it); tolerance 1e-10', 'DESIGN.md#C02')
+
+add('C03', 'exploration', 'history + reference: every evaluated batch and every posterior row re-evaluated with the harness-owned pure likelihood; uniqueness and exactly-once evaluation log',
+    'Across the cross product of evaluation modes, prior kinds, batch sizes (incl. 1), blob dtypes and pools, every '
+    'batch returned by evaluate_likelihood and every row of posterior(return_blobs=True) (after transfers, toggles, '
+    'resumes) is re-evaluated by the same pure function; stored unit points must be distinct and evaluated exactly once.',
+    'same function, same input bytes (bit-exact in scalar mode, 1e-12 vectorised)', 'DESIGN.md#C03')
+
+add('C07', 'exploration', 'post-condition monitor on the real bound classes (sample => contains and cube, compute/split => construction points enclosed, neural/nautilus => inside outer bound)',
+    'Post-conditions checked on bounds of every class built from generated landscapes (d=1..8, clustered, elongated, '
+    'curved, face/corner hugging, wrapped), with split/sample histories, periodic shifts and pool sampling; >= 10^4 '
+    'sampled points per bound.', 'enlargement >= 1.02; degenerate generated sets are skipped', 'DESIGN.md#C07')
+
+add('C08', 'exploration', 'statistical monitor: z-test of reported volume and two-sample chi-square of the sample stream against an independent box-union reference filtered through contains()',
+    'For unions with overlapping members and NautilusBounds (networks, periodic, pools, after an HDF5 round trip) '
+    'the reported volume is z-tested (|z|<6.1) against the Monte-Carlo measure of {contains} and the sample stream is '
+    'chi-square tested (p>1e-9) against uniform-over-contains over multiplicity x octant cells; ellipsoid log-volume '
+    'is checked against the matrix contains() uses.',
+    'false-alarm probability <= ~4e-9 per bound; power stated in DESIGN (a missing 1/multiplicity correction at >= 1 % overlap is detected)',
+    'DESIGN.md#C08')
+
+add('C09', 'exploration', 'differential monitor: original bound is the reference model of its read-back copy, driven in lock-step under a cloned generator',
+    'Bounds of every class and option set, in states reached by split/trim/sample histories, are written, read back '
+    'and compared call by call (contains on probes, log_v, sample streams across refills); update() is compared with '
+    'a fresh write() and read back again.', 'bit-exact equality; split() on a read-back union not part of the property',
+    'DESIGN.md#C09')
+
 
 def main():
     checks = []
